@@ -114,7 +114,7 @@ def r_gate(ctx):
         ctx.need(len(effs) >= 1, rule, 'effects of ' + path)
         for b, c, what in effs:
             key = '%s/dominates/%s' % (path, what.split('::<')[0].split('::')[-1])
-            good = f.dominates(eq, b) and b not in f.reachable(fail)
+            good = paths.edge_dominates(f, sw, eq, b) and b not in f.reachable(fail)
             ctx.check(good, rule, key, c.loc(), 'effect is dominated by the length gate\'s equal edge',
                       'in `%s` the effect `%s` can execute although vector.len() differs from the declared dimension' % (path, what))
         # failing edge returns the right error with the right fields
@@ -130,7 +130,7 @@ def r_gate(ctx):
                 detail = 'expected=%s received=%s' % (show(d.get('expected', ('unknown', ''))), show(d.get('received', ('unknown', ''))))
         okgoal = [b for b, k, t in paths.ret_assigns(f) if k in ('ok', 'call', 'other')]
         good = good and not any(x in f.reachable(fail) for x in okgoal)
-        byp = [b for b in okgoal if not f.dominates(eq, b)]
+        byp = [b for b in okgoal if not paths.edge_dominates(f, sw, eq, b)]
         ctx.check(not byp, rule, path + '/no-success-bypass', f.loc(), 'every success return is dominated by the length gate',
                   '`%s` can return success without having compared vector.len() with the declared dimension (return at line %s)' % (path, [paths.block_line(f, b) for b in byp]))
         ctx.check(good, rule, path + '/error', f.loc(), 'failing edge returns InvalidVecDimension{%s}' % detail,
